@@ -515,7 +515,7 @@ Section WithV.
 
   (* the value the COO joiner returns: the constructor applied to the offset entry lists *)
   Lemma coo_concat_value (vzero : V) (vadd : V -> V -> V)
-          (fl : ctor_flags) (ndim_expr : pyv -> res pyv) (checks_fill : bool)
+          (fl : ctor_flags) (ndim_expr : pyv -> res pyv) (checks_fill : bool) (mexc : exc)
           (a : coo) (r : list coo) (axis : Z) (k : nat) :
     ndim_expr (VInt (ndim_of V a)) = Ok (VInt (ndim_of V a)) ->
     np_norm_axis axis (ndim_of V a) = Some k ->
@@ -524,7 +524,7 @@ Section WithV.
     Forall cwf (a :: r) ->
     Forall (fun x => same_off k (c_shape a) (c_shape x)) r ->
     Forall (fun x => c_fill x = c_fill a) r ->
-    coo_concatenate V veqb vzero vadd fl ndim_expr checks_fill axis (a :: r)
+    coo_concatenate V veqb vzero vadd fl ndim_expr checks_fill mexc axis (a :: r)
     = Ok (plain_ctor (fl_sorted fl (Z.of_nat k)) (c_fill a)
             (upd k (fun _ => zsum (map (fun x => nth k (c_shape x) 0) (a :: r))) (c_shape a))
             (cparts_e k 0 (a :: r))).
@@ -566,7 +566,7 @@ Section WithV.
   Qed.
 
   Theorem coo_concat_correct (vzero : V) (vadd : V -> V -> V)
-          (fl : ctor_flags) (ndim_expr : pyv -> res pyv) (checks_fill : bool)
+          (fl : ctor_flags) (ndim_expr : pyv -> res pyv) (checks_fill : bool) (mexc : exc)
           (a : coo) (r : list coo) (axis : Z) (k : nat) :
     ndim_expr (VInt (ndim_of V a)) = Ok (VInt (ndim_of V a)) ->
     np_norm_axis axis (ndim_of V a) = Some k ->
@@ -576,7 +576,7 @@ Section WithV.
     Forall cwf (a :: r) ->
     Forall (fun x => same_off k (c_shape a) (c_shape x)) r ->
     Forall (fun x => c_fill x = c_fill a) r ->
-    exists c, coo_concatenate V veqb vzero vadd fl ndim_expr checks_fill axis (a :: r) = Ok c
+    exists c, coo_concatenate V veqb vzero vadd fl ndim_expr checks_fill mexc axis (a :: r) = Ok c
       /\ canonical c
       /\ c_shape c = da_shape (np_concatenate k (darr_of_coo a) (map darr_of_coo r))
       /\ c_fill c = c_fill a
@@ -802,7 +802,7 @@ Section WithV.
   Qed.
 
   Theorem coo_stack_correct (vzero : V) (vadd : V -> V -> V)
-          (fl : ctor_flags) (ndim_expr : pyv -> res pyv) (checks_fill : bool)
+          (fl : ctor_flags) (ndim_expr : pyv -> res pyv) (checks_fill : bool) (mexc : exc)
           (a : coo) (r : list coo) (axis : Z) (k : nat) :
     ndim_expr (VInt (ndim_of V a)) = Ok (VInt (ndim_of V a + 1)) ->
     np_norm_axis axis (ndim_of V a + 1) = Some k ->
@@ -812,7 +812,7 @@ Section WithV.
     Forall cwf (a :: r) ->
     Forall (fun x => c_shape x = c_shape a) r ->
     Forall (fun x => c_fill x = c_fill a) r ->
-    exists c, coo_stack V veqb vzero vadd fl ndim_expr checks_fill axis (a :: r) = Ok c
+    exists c, coo_stack V veqb vzero vadd fl ndim_expr checks_fill mexc axis (a :: r) = Ok c
       /\ canonical c
       /\ c_shape c = da_shape (np_stack k (darr_of_coo a) (map darr_of_coo r))
       /\ c_fill c = c_fill a
@@ -902,7 +902,7 @@ Section Src.
       by (cbn; intros Hs; apply Z.eqb_eq in Hs; lia).
     (* eq_refl: normalize_axis gets arrays[0].ndim; has_duplicates=False; prune absent *)
     exact (coo_concat_correct V veqb veqb_eq vzero vadd concat_flags site_concatenate_axis_ndim
-             site_concatenate_checks_consistent_fill a r axis k eq_refl Hax eq_refl eq_refl H5 H6 Hwf Hso Hfl).
+             site_concatenate_checks_consistent_fill site_concatenate_mismatch_exc a r axis k eq_refl Hax eq_refl eq_refl H5 H6 Hwf Hso Hfl).
   Qed.
 
   Lemma coo_stack_src_correct (a : coo V) (r : list (coo V)) (axis : Z) (k : nat) :
@@ -920,7 +920,7 @@ Section Src.
       by (cbn; intros Hs; apply Z.eqb_eq in Hs; lia).
     (* eq_refl: normalize_axis gets arrays[0].ndim + 1; has_duplicates=False; prune absent *)
     exact (coo_stack_correct V veqb veqb_eq vzero vadd stack_flags site_stack_axis_ndim
-             site_stack_checks_consistent_fill a r axis k eq_refl Hax eq_refl eq_refl H5 H6 Hwf Hso Hfl).
+             site_stack_checks_consistent_fill site_stack_mismatch_exc a r axis k eq_refl Hax eq_refl eq_refl H5 H6 Hwf Hso Hfl).
   Qed.
 
   (* members with different fill values are rejected (check_consistent_fill_value is called) *)
@@ -965,6 +965,42 @@ Section Src.
       rewrite Forall_forall in Hfl. symmetry. auto. }
     rewrite E1, andb_false_r.
     rewrite (norm_axis_rejects site_concatenate_axis_ndim axis _ (ndim_of V a)); [reflexivity|reflexivity|exact Hax].
+  Qed.
+
+  (* members that do not fit are rejected with the generated exception (ValueError, like NumPy) *)
+  Lemma coo_concat_src_mismatch (a : coo V) (r : list (coo V)) (axis : Z) (k : nat) :
+    np_norm_axis axis (ndim_of V a) = Some k ->
+    Forall (fun x => c_fill x = c_fill a) r ->
+    (exists x, In x r /\ same_off_axis k (c_shape a) (c_shape x) = false) ->
+    coo_concatenate_src V veqb vzero vadd (Some axis) (a :: r) = Raise ValueError.
+  Proof.
+    intros Hax Hfl [x [Hin Hbad]]. unfold coo_concatenate_src, coo_concatenate_opt, coo_concatenate.
+    assert (E1 : fills_consistent V veqb a (a :: r) = true).
+    { unfold fills_consistent. apply forallb_forall. intros y [<-|Hy]; apply veqb_eq; [reflexivity|].
+      rewrite Forall_forall in Hfl. symmetry. auto. }
+    rewrite E1, andb_false_r.
+    destruct (norm_axis_spec site_concatenate_axis_ndim axis _ _ k eq_refl Hax) as [Hnorm _].
+    rewrite Hnorm. cbn [bind]. rewrite Nat2Z.id.
+    assert (E2 : forallb (fun y => same_off_axis k (c_shape a) (c_shape y)) (a :: r) = false).
+    { destruct (forallb _ (a :: r)) eqn:E; [|reflexivity]. rewrite forallb_forall in E.
+      rewrite (E x (or_intror Hin)) in Hbad. discriminate. }
+    rewrite E2. reflexivity.
+  Qed.
+
+  Lemma coo_stack_src_mismatch (a : coo V) (r : list (coo V)) (axis : Z) :
+    Forall (fun x => c_fill x = c_fill a) r ->
+    (exists x, In x r /\ c_shape x <> c_shape a) ->
+    coo_stack_src V veqb vzero vadd axis (a :: r) = Raise ValueError.
+  Proof.
+    intros Hfl [x [Hin Hbad]]. unfold coo_stack_src, coo_stack.
+    assert (E1 : fills_consistent V veqb a (a :: r) = true).
+    { unfold fills_consistent. apply forallb_forall. intros y [<-|Hy]; apply veqb_eq; [reflexivity|].
+      rewrite Forall_forall in Hfl. symmetry. auto. }
+    rewrite E1, andb_false_r.
+    assert (E2 : forallb (fun y => idx_eqb (c_shape a) (c_shape y)) (a :: r) = false).
+    { destruct (forallb _ (a :: r)) eqn:E; [|reflexivity]. rewrite forallb_forall in E.
+      specialize (E x (or_intror Hin)). apply idx_eqb_eq in E. congruence. }
+    rewrite E2. reflexivity.
   Qed.
 
   (* ---------------------------------------------------------------- the property-level statements *)
